@@ -913,9 +913,21 @@ class Interp:
                 acc = self.or_(acc, self.compare(ast.Eq(), x, k))
             return acc
         if isinstance(x, (SObj, Opaque)):
-            if isinstance(x, Opaque):
+            def same(k):
+                return k is x or (hasattr(k, 'key') and hasattr(x, 'key') and k.key() == x.key())
+            if isinstance(x, Opaque) and not hasattr(x, 'key'):
+                if any(k is x for k in container):
+                    return True
+                if len(container) == 0:
+                    return False
+                if all(isinstance(k, (int, str, bytes, bool, type(None))) for k in container):
+                    h = self.hooks.get('opaque_in')
+                    if h:
+                        return h(self, container, x)
+                    # an unknown value against known members: either way
+                    return Sym('bool', z3.Bool(self.run.fresh_name('opaque_member')))
                 raise Unsupported('membership of opaque value')
-            return any(k is x for k in container)
+            return any(same(k) for k in container)
         keys = list(container.keys()) if isinstance(container, dict) else list(container)
         acc = False
         for k in keys:
@@ -1351,6 +1363,22 @@ class Interp:
 
     def e_Dict(self, n, env):
         d = {}
+        if any(k is None for k in n.keys):
+            vals = [self.eval(v, env) for v in n.values]
+            if all(k is None for k in n.keys) and any(isinstance(v, SymDictBase) for v in vals):
+                # {**a, **b}: a frozen copy in which later operands win
+                h = self.hooks.get('dict_merge')
+                if h:
+                    return h(self, vals)
+                raise Unsupported('dict display merging symbolic dicts')
+            for k, v, val in zip(n.keys, n.values, vals):
+                if k is None:
+                    if isinstance(val, SymDictBase):
+                        raise Unsupported('dict display merging symbolic dicts')
+                    d.update(val)
+                else:
+                    d[self.eval(k, env)] = val
+            return d
         for k, v in zip(n.keys, n.values):
             if k is None:
                 d.update(self.eval(v, env))
@@ -2053,7 +2081,10 @@ def _b_type(it, args, kw):
     t = type_name(v)
     if isinstance(t, ClassVal):
         return t
-    return BUILTINS.get(t) or Opaque('type:' + t)
+    if t not in BUILTINS:
+        BUILTINS.setdefault('type:' + t, Builtin('type:' + t, lambda it, a, k: it._unsup('constructor of type %s' % t)))
+        return BUILTINS['type:' + t]
+    return BUILTINS[t]
 
 
 def _b_int(it, args, kw):
@@ -2362,7 +2393,19 @@ class ChainMapVal(SymDictBase):
     def getattr(self, it, name):
         if name == 'maps':
             return self.maps
+        if name == 'items':
+            return Builtin('ChainMap.items', lambda it2, a, k: SymItems(self))
+        if name == 'update':
+            # ChainMap writes go to maps[0]
+            return it.getattr(self.maps[0], 'update')
         raise Unsupported('ChainMap.%s' % name)
+
+    def comprehension(self, it, node, env):
+        # iterating a ChainMap visits every key of every map: evaluate the comprehension on the first symbolic map's model
+        for m in self.maps:
+            if isinstance(m, SymDictBase) and hasattr(m, 'comprehension'):
+                return m.comprehension(it, node, env)
+        raise Unsupported('comprehension over ChainMap')
 
     def iterate(self, it):
         raise Unsupported('iteration over ChainMap')
